@@ -3,6 +3,7 @@
 
 #include <string.h>
 #include <cmath>
+#include <cstdio>
 
 namespace photospline{
 	
@@ -428,6 +429,9 @@ void splinetable<Alloc>::write_fits(const std::string& filePath) const{
 	if (error != 0)
 		throw std::runtime_error(("CFITSIO failed to open "+filePath+" for writing").c_str());
 	
+	//If anything goes wrong the incomplete file is removed: its headers can
+	//already describe a complete table while some of its data never made it
+	//to disk, so it must not be left behind to be read as a different table.
 	struct fits_cleanup{
 		fitsfile* fits;
 		fits_cleanup(fitsfile* f):fits(f){}
@@ -435,7 +439,7 @@ void splinetable<Alloc>::write_fits(const std::string& filePath) const{
 			if(!fits)
 				return;
 			int error=0;
-			fits_close_file(fits, &error);
+			fits_delete_file(fits, &error);
 			fits_report_error(stderr, error);
 		}
 	} cleanup(fits);
@@ -448,6 +452,7 @@ void splinetable<Alloc>::write_fits(const std::string& filePath) const{
 	fits_close_file(fits, &error);
 	if (error != 0){
 		fits_report_error(stderr, error);
+		std::remove(filePath.c_str());
 		throw std::runtime_error(("CFITSIO failed to flush and close "+filePath).c_str());
 	}
 }
